@@ -364,6 +364,30 @@ INIT_UNITS = [
          funcs=[AD + ": affinity_data::init (the branch for a non-empty, non-`none` bind description)"], min_obligations=10, solver=["--sat-solver", "cadical"]),
 ]
 
+# ---- topology::set_thread_affinity_mask: logical PU mask -> OS cpuset (added by main after seeded change C15-3 was missed) ----
+TOPO_CPP = "libs/pika/topology/src/topology.cpp"
+LOOP_STAM = ("__CPROVER_assigns(i, g_set, g_obj)\n"
+             "__CPROVER_loop_invariant(i <= mask->size && !g_set.freed && g_set.sets >= 0 && g_set.sets <= 2 && g_set.v_bit == (g_vl < i && mask->v_bit))")
+TOPO_UNITS = [
+    Unit("topo.set_thread_affinity_mask", "topo.c", enforce="set_thread_affinity_mask", lifts={
+        "get_index": Lift(TOPO_CPP, r"std::size_t get_index\(hwloc_obj_t obj\)", rules=[]),
+        "body": Lift(TOPO_CPP, r"void topology::set_thread_affinity_mask\(mask_cref_type mask, error_code& ec\) const", rules=[
+            Sub(r"\bunsigned\((\w+)\)", r"((unsigned)(\1))", None),
+            Sub(r"\bdetail::get_index\(", "get_index(", None),
+            Sub(r"\btest\(mask,", "mask_test(mask,", None),
+            Guard(r"std::unique_lock<mutex_type> (\w+)\(topo_mtx\);", "VX_ASSERT(!self->topo_mtx.held, \"topo_mtx locked twice\"); self->topo_mtx.held = true;",
+                  "self->topo_mtx.held = false;", None),
+            Sub(r"std::unique_ptr<char\[\]> \w+\(new char\[\d+\]\);", "", None),
+            DropStmt(r"\bhwloc_bitmap_snprintf", None),
+            Call(r"\bPIKA_THROWS_IF", "vx_throws_if({0}, 1)", None),
+            Sub(r"\bsleep\(0\);", "vx_sleep0();", None),
+            Sub(r"if \(&ec != &throws\) ec = make_success_code\(\);", "if (ec != &vx_throws_obj) ec->value = 0;", None),
+            Sub(r"(?<![\w.>])topo(?=\s*[,)])", "self->topo", None),
+        ], loops={1: LOOP_STAM, "count": 1})},
+        funcs=[TOPO_CPP + ": topology::set_thread_affinity_mask, detail::get_index"], min_obligations=10, solver=["--sat-solver", "cadical"],
+        doc="T: the cpuset handed to hwloc_set_cpubind contains OS PU x iff the logical PU with os_index x is in the pika mask"),
+]
+
 NONE_UNITS = [
     Unit("none.init_branch", "none.c", defines=["U_NONE_BRANCH"], enforce="init_none_branch", lifts=NONE_LIFTS,
          funcs=[AD + ": affinity_data::init (the `none` branch)", AD_HPP + ": affinity_data::get_pu_num(num_thread)"], min_obligations=10),
@@ -419,7 +443,7 @@ UNITS = [
          lifts={"dist_enum": Lift(PAO_HPP, r"enum distribution_type", fragment_end=r"\};", rules=[]),
                 "body": Lift(PAO, r"void decode_distribution\(", rules=[Call(r"\baffinities\.resize", "maskvec_resize(affinities, {0})", None)])},
          funcs=[PAO + ": decode_distribution"], min_obligations=10),
-] + NONE_UNITS + INIT_UNITS + [
+] + NONE_UNITS + INIT_UNITS + TOPO_UNITS + [
     Unit("pu_in_process_mask", "decoders.c", defines=["U_PIM"], enforce="pu_in_process_mask", lifts=dict(HELPERS),
          funcs=[PAO + ": pu_in_process_mask"], min_obligations=3),
     Unit("check_num_threads", "decoders.c", defines=["U_CNT"], enforce="check_num_threads", lifts=dict(HELPERS),
